@@ -42,6 +42,7 @@ _step = st.one_of(
     st.tuples(st.just("call"), st.sampled_from(ENTRIES), st.sampled_from(TOOLS + ["t0", "unknown"])),
     st.tuples(st.just("call"), st.sampled_from(ENTRIES), st.sampled_from(TOOLS)),
     st.tuples(st.just("call"), st.sampled_from(["execute_tool_call", "nucleus", "auto"]), st.sampled_from(TOOLS)),
+    st.tuples(st.just("call"), st.sampled_from(["execute_tool_call", "nucleus", "auto", "forced-tool"]), st.sampled_from(TOOLS), st.sampled_from(["upper", "title", "padded"])),
 ).map(list)
 
 
@@ -61,6 +62,10 @@ def enumerate_cases(tier):
     for allowed, req, entry in itertools.product(_LATTICE, _LATTICE, ENTRIES):
         r = req or []
         yield {"allowed": allowed, "init": [], "steps": [["reg", "engulf", "t0", r], ["call", entry, "t0"]]}
+    for entry in ("auto", "forced-tool", "execute_tool_call", "nucleus"):
+        for variant in ("upper", "title", "padded"):
+            for allowed in ([], ["NET"]):
+                yield {"allowed": allowed, "init": [], "steps": [["reg", "engulf", "t0", ["MONEY"]], ["call", entry, "t0", variant]]}
 
 
 class _CustomTool:
@@ -137,7 +142,10 @@ def judge(case):
                 out.fail("raise:%s:register" % type(e).__name__, "registration raised %s" % e, {"step": i})
                 return out
             continue
-        _, entry, name = step
+        entry, name = step[1], step[2]
+        variant = step[3] if len(step) > 3 else "exact"
+        # the tool may be requested under another spelling of its name: whatever the engine resolves it to, a disallowed body must not run
+        asked = {"exact": name, "upper": name.upper(), "title": name.title(), "padded": " " + name + " "}[variant]
         before = dict(counters)
         leaked_into = []
         reported_success = None
@@ -146,7 +154,7 @@ def judge(case):
             if entry in ("auto", "forced-tool", "forced-math", "forced-logic", "forced-transform", "nested-arg", "in-arithmetic", "in-comparison"):
                 pw = {"auto": None, "forced-tool": MetabolicPathway.OXIDATIVE, "forced-math": MetabolicPathway.GLYCOLYSIS,
                       "forced-logic": MetabolicPathway.KREBS_CYCLE, "forced-transform": MetabolicPathway.BETA_OXIDATION}.get(entry)
-                text = "%s()" % name
+                text = "%s()" % asked.strip() if variant != "padded" else " %s() " % name
                 if entry == "nested-arg":
                     # as the argument of a permitted helper tool registered just for this request
                     counters.setdefault("helper", 0)
@@ -163,7 +171,7 @@ def judge(case):
                 returned.append(repr(r.atp.value) if r.atp else "")
                 returned.append(r.error or "")
             elif entry == "execute_tool_call":
-                r = m.execute_tool_call(ToolCall(id="c%d" % i, name=name, arguments={}))
+                r = m.execute_tool_call(ToolCall(id="c%d" % i, name=asked, arguments={}))
                 reported_success = r.success
                 returned.append(str(r.output))
                 returned.append(r.error or "")
@@ -182,7 +190,7 @@ def judge(case):
 
                     def complete_with_tools(self, prompt, tools, config=None):
                         prompts.append(prompt)
-                        calls = [ToolCall(id="n%d_%d" % (i, len(prompts)), name=name, arguments={}),
+                        calls = [ToolCall(id="n%d_%d" % (i, len(prompts)), name=asked, arguments={}),
                                  ToolCall(id="n%d_%d_b" % (i, len(prompts)), name=name, arguments={})] if len(prompts) <= 3 else []
                         return LLMResponse(content="r", model="m", tokens_used=1, latency_ms=0.0), calls
 
